@@ -658,6 +658,8 @@ class RecGen:
     def secret(self):
         self.n += 1
         r = self.rng.random()
+        if r < 0.04:
+            return 9007199254740993 + 2 * self.n       # an integer no float64 holds (a document re-encoded through floats rounds it)
         if r < 0.12:
             return 7000000 + self.n
         return "zq%04dx" % self.n
